@@ -52,6 +52,7 @@ func (s *Source) Tick(recv bool, d Draw, quiet bool, maxRTZ int) {
 	prof := s.Profile
 	if quiet {
 		prof = StallNone
+		s.wait = 0 // faults have stopped: a stall drawn earlier does not outlast them
 	}
 	switch s.state {
 	case 0:
@@ -110,6 +111,7 @@ func (k *Sink) Tick(valid bool, data uint64, d Draw, quiet bool, maxRTZ int) {
 	prof := k.Profile
 	if quiet {
 		prof = StallNone
+		k.wait = 0 // faults have stopped: a stall drawn earlier does not outlast them
 	}
 	switch k.state {
 	case 0:
